@@ -12,7 +12,7 @@ C05 / C10 line-protocol driver for the time model:
 
 Tokens: rationals `p/q` or integers; clocks `sys`, `app`, `t<i>`;
 acts `y d`, `hang`, `yinf` (= hang), `log`, `send b`, `spawn r clk`, `tempo i x`, `pause r`, `resume r`, `stop r`,
-`wait c`, `sig c`, `seed n`, `draw`.
+`wait c`, `sig c`, `seed n`, `draw`, `pull r`.
 -/
 import Sc3Verif.C05.Model
 open Sc3Verif.C05
@@ -60,6 +60,7 @@ def parseAct (ws : List String) : Option Act :=
   | ["sig", c] => do some (.signal (← c.toNat?))
   | ["seed", n] => do some (.seed (← n.toNat?))
   | ["draw"] => some .draw
+  | ["pull", r] => do some (.pull (← r.toNat?))
   | _ => none
 
 def splitActs (ws : List String) : List (List String) :=
